@@ -1,5 +1,5 @@
 """U4 - when to renew (acmed/src/certificate.rs).  Serves C06; hook-data builders serve C05/C10/C07."""
-from unit import Unit, FnSpec, fmt_to_cat
+from unit import Unit, FnSpec, soft_rules, fmt_to_cat
 import storage
 
 CRT = "acmed/src/certificate.rs"
@@ -23,8 +23,9 @@ def contracts():
 """, rewrites=[ZERO])
     c["has_missing_identifiers"] = FnSpec(ret="r", sig="""
     ensures r == !id_values(self.identifiers@).subset_of(crate::acme_common::crypto::cert_san(*cert)), //@C06.missing_identifier_detected
-""", rewrites=[("T-ITER", r"self\s*\.identifiers\s*\.iter\(\)\s*\.map\(\|v\| v\.value\.to_owned\(\)\)\s*\.collect::<HashSet<String>>\(\)",
-                "crate::titer3::collect_strings(&self.identifiers, |v: &Identifier| -> (s: String) ensures s@ == v.value@ { v.value.to_owned() })"),
+""", rewrites=[("T-ITER", r"self\s*\.identifiers\s*\.iter\(\)\s*\.map\(\s*\|(?P<p>\w+)\|\s*(?P<body>.*?)\s*\)\s*\.collect::<HashSet<String>>\(\)",
+                # the closure keeps its real body; what the comparison relies on (each configured identifier is compared as it is) is its ensures clause
+                lambda m: f"crate::titer3::collect_strings(&self.identifiers, |{m.group('p')}: &Identifier| -> (s: String) ensures s@ == {m.group('p')}.value@ //@C06.missing_identifier_detected\n {{ {soft_rules(m.group('body'))} }})"),
                ("T-ITER", r"(?P<a>\w+)\.difference\(&(?P<b>\w+)\)\.count\(\)", r"crate::titer3::difference_count(&\g<a>, &\g<b>)"),
                ("T-FMT", r"let domains = req_names.*?\.join\(\", \"\);", "let domains = crate::opaque_string();")],
         at=[("before_stmt", "if has_miss", 1, """
